@@ -147,6 +147,8 @@ def _has_set(root):
   for _, v in C.walk(root):
     if isinstance(v, (set, frozenset)):
       return True
+    if isinstance(v, fdl.Buildable) and any(len(ts) >= 2 for ts in v.__argument_tags__.values()):
+      return True  # tag sets are serialized as frozensets
     if isinstance(v, dict) and any(isinstance(k, frozenset) for k in v):
       return True
   return False
@@ -286,9 +288,11 @@ def check_policy(case, out, root, doc):
   if not returned and raised is None:
     out.add('harness-spy-not-engaged', 'harness', '', feat, 'import_symbol spy saw no call')
     return out
-  if things.CANARY_CALLS or vuni.LOG:
+  if (things.CANARY_CALLS or vuni.LOG) and not mutated:
     out.add('load-invoked-callable', 'invoked', '', feat, str(things.CANARY_CALLS[:2]))
     return out
+  # (in a mutated document a class can stand where a named-tuple type is expected and is then
+  # called by unflatten; whether that symbol was approved is judged below)
   disapproved = False
   for pol, module, symbol, value, icalls, vcalls in returned:
     if pol is not policy:
